@@ -7,43 +7,84 @@
      k1_in cfg o           X-K1 as a condition on inputs only (Bind / Update)
      I_k1 cfg s            every stored price is k1_bound
      ReachK1 cfg s         reachable through operations that all satisfy wf_op and k1_in
-     k1_run, outcomes      side conditions / step outcomes collected along a history
+     k6_op s o             exclusion X-K6 for the message o executed in state s: for
+                           Update / Enable of binding (svc, prov) carrying the coins dep,
+                             forall b a, get (svc, prov) (binds s) = Some b ->
+                               one_base_coin dep = Ok a -> b_deposit b + a < INT_LIMIT
+                           (the stored deposit plus the top-up fits an sdk.Int); True otherwise
+     k6_in S0 o            X-K6 as a condition on inputs only: for Update / Enable,
+                             forall a, one_base_coin dep = Ok a -> S0 + a < INT_LIMIT
+                           where S0 is the supply of the genesis state
+     ReachS cfg S0 s       (Proofs/SupplyMono.v) Reach that remembers the genesis supply S0
+     ReachK1S cfg S0 s     ReachK1 that remembers the genesis supply S0
+     k1_run, k16_run, outcomes
+                           side conditions / step outcomes collected along a history
      expire_req_clean cfg s r, expire_loop_clean cfg l s
                            the iteration(s) of EndBlock's expiry loop find the request and its
                            context, slash returns Ok and refund_fee returns Some (nothing is
                            dropped), each iteration taken in the state it actually runs in.
-   Known finding K1 is recorded by the three *_refuted theorems: without X-K1 the message
-   theorem is false.  EndBlock needs no exclusion.  Byte-level determinism across processes
+   Known finding K1 is recorded by the three C20_K1_*_refuted theorems: without X-K1 the message
+   theorem is false.  Known finding K6 (binding.Deposit.Add(deposit...) in UpdateServiceBinding
+   and EnableServiceBinding overflows before the owner pays) is recorded by C20_K6_*_refuted /
+   C20_K6_*_witness: without X-K6 the message theorem is false, for messages that satisfy X-K1;
+   C20_k6_update_sharp / C20_k6_enable_sharp say k6_op is the weakest exclusion.  X-K6 in its
+   input form rests on C20_supply_step_le (no operation increases the supply) and on the
+   deposits being backed by the supply.  EndBlock needs no exclusion.  Byte-level determinism across processes
    is outside Gallina (harness double replay); what is expressible is at the end. *)
 From Coq Require Import List ZArith Bool Permutation Sorted.
 From SVC Require Import Base.AMap Base.Res Base.Dec Model.Types Model.Pricing Model.Handlers
   Model.EndBlock Model.Step Proofs.Inv.
-From SVC Require Proofs.NoPanic.
+From SVC Require Proofs.NoPanic Proofs.SupplyMono.
 Import ListNotations.
 Open Scope Z_scope.
 
 (* ---- messages ---- *)
 
 Theorem C20_no_panic_msg : forall cfg s o,
-  wf_cfg cfg -> Inv cfg s -> wf_op s o -> NoPanic.k1_op cfg s o -> handle cfg s o <> Panic.
+  wf_cfg cfg -> Inv cfg s -> wf_op s o -> NoPanic.k1_op cfg s o -> NoPanic.k6_op s o ->
+  handle cfg s o <> Panic.
 Proof. exact NoPanic.C20_no_panic_msg. Qed.
 Print Assumptions C20_no_panic_msg.
 
 Theorem C20_no_panic_reach : forall cfg s o,
-  wf_cfg cfg -> Reach cfg s -> wf_op s o -> NoPanic.k1_op cfg s o -> snd (step cfg s o) <> RPanic.
+  wf_cfg cfg -> Reach cfg s -> wf_op s o -> NoPanic.k1_op cfg s o -> NoPanic.k6_op s o ->
+  snd (step cfg s o) <> RPanic.
 Proof. exact NoPanic.C20_no_panic_reach. Qed.
 Print Assumptions C20_no_panic_reach.
 
-(* only Bind, Update-with-pricing and Enable need the exclusion *)
+(* only Bind, Enable, and an Update that carries a pricing (X-K1) or a deposit top-up (X-K6)
+   need an exclusion *)
 Theorem C20_no_panic_no_pricing : forall cfg s o,
   wf_cfg cfg -> Reach cfg s -> wf_op s o ->
   match o with
   | OBind _ _ _ _ _ _ _ | OUpdate _ _ _ (Some _) _ _ _ | OEnable _ _ _ _ _ => False
+  | OUpdate _ _ dep None _ _ _ => coins_empty dep = true
   | _ => True
   end ->
   snd (step cfg s o) <> RPanic.
 Proof. exact NoPanic.C20_no_panic_no_pricing. Qed.
 Print Assumptions C20_no_panic_no_pricing.
+
+(* without a top-up X-K6 holds trivially, X-K1 alone suffices *)
+Theorem C20_k6_op_no_topup : forall s o,
+  match o with
+  | OUpdate _ _ dep _ _ _ _ => coins_empty dep = true
+  | OEnable _ _ dep _ _ => coins_empty dep = true
+  | _ => True
+  end -> NoPanic.k6_op s o.
+Proof. exact NoPanic.k6_op_no_topup. Qed.
+Print Assumptions C20_k6_op_no_topup.
+
+Theorem C20_no_panic_no_topup : forall cfg s o,
+  wf_cfg cfg -> Reach cfg s -> wf_op s o -> NoPanic.k1_op cfg s o ->
+  match o with
+  | OUpdate _ _ dep _ _ _ _ => coins_empty dep = true
+  | OEnable _ _ dep _ _ => coins_empty dep = true
+  | _ => True
+  end ->
+  snd (step cfg s o) <> RPanic.
+Proof. exact NoPanic.C20_no_panic_no_topup. Qed.
+Print Assumptions C20_no_panic_no_topup.
 
 Theorem C20_I_k1_step : forall cfg s o,
   NoPanic.k1_in cfg o -> NoPanic.I_k1 cfg s -> NoPanic.I_k1 cfg (fst (step cfg s o)).
@@ -64,14 +105,78 @@ Proof. exact NoPanic.k1_in_op. Qed.
 Print Assumptions C20_k1_in_op.
 
 Theorem C20_no_panic_reachK1 : forall cfg s o,
-  wf_cfg cfg -> NoPanic.ReachK1 cfg s -> wf_op s o -> NoPanic.k1_in cfg o ->
+  wf_cfg cfg -> NoPanic.ReachK1 cfg s -> wf_op s o -> NoPanic.k1_in cfg o -> NoPanic.k6_op s o ->
   snd (step cfg s o) <> RPanic.
 Proof. exact NoPanic.C20_no_panic_reachK1. Qed.
 Print Assumptions C20_no_panic_reachK1.
 
-Theorem C20_no_panic_run : forall cfg s ops,
-  wf_cfg cfg -> NoPanic.ReachK1 cfg s -> NoPanic.k1_run cfg s ops ->
-  ~ In RPanic (NoPanic.outcomes cfg s ops) /\ NoPanic.ReachK1 cfg (run cfg s ops).
+(* ---- X-K6 as a condition on inputs: the supply backs every deposit and never grows ---- *)
+
+Theorem C20_supply_step_le : forall cfg s o, supply (fst (step cfg s o)) <= supply s.
+Proof. exact SupplyMono.supply_step_le. Qed.
+Print Assumptions C20_supply_step_le.
+
+Theorem C20_Inv_supply_step_le : forall cfg s o,
+  wf_cfg cfg -> Inv cfg s -> wf_op s o -> supply (fst (step cfg s o)) <= supply s.
+Proof. exact SupplyMono.Inv_supply_step_le. Qed.
+Print Assumptions C20_Inv_supply_step_le.
+
+Theorem C20_ReachS_Reach : forall cfg S0 s, SupplyMono.ReachS cfg S0 s -> Reach cfg s.
+Proof. exact SupplyMono.ReachS_Reach. Qed.
+Print Assumptions C20_ReachS_Reach.
+
+Theorem C20_Reach_ReachS : forall cfg s, Reach cfg s -> exists S0, SupplyMono.ReachS cfg S0 s.
+Proof. exact SupplyMono.Reach_ReachS. Qed.
+Print Assumptions C20_Reach_ReachS.
+
+Theorem C20_ReachS_supply_le : forall cfg S0 s, SupplyMono.ReachS cfg S0 s -> supply s <= S0.
+Proof. exact SupplyMono.ReachS_supply_le. Qed.
+Print Assumptions C20_ReachS_supply_le.
+
+Theorem C20_Inv_bal_le_supply : forall cfg s a, Inv cfg s -> 0 <= bal s a <= supply s.
+Proof. exact SupplyMono.Inv_bal_le_supply. Qed.
+Print Assumptions C20_Inv_bal_le_supply.
+
+Theorem C20_Inv_deposit_le_supply : forall cfg s k b,
+  Inv cfg s -> get k (binds s) = Some b ->
+  0 <= b_deposit b <= bal s Deposit /\ bal s Deposit <= supply s.
+Proof. exact SupplyMono.Inv_deposit_le_supply. Qed.
+Print Assumptions C20_Inv_deposit_le_supply.
+
+Theorem C20_k6_in_op : forall cfg S0 s o,
+  SupplyMono.ReachS cfg S0 s -> NoPanic.k6_in S0 o -> NoPanic.k6_op s o.
+Proof. exact NoPanic.k6_in_op. Qed.
+Print Assumptions C20_k6_in_op.
+
+Theorem C20_ReachK1S_ReachK1 : forall cfg S0 s, NoPanic.ReachK1S cfg S0 s -> NoPanic.ReachK1 cfg s.
+Proof. exact NoPanic.ReachK1S_ReachK1. Qed.
+Print Assumptions C20_ReachK1S_ReachK1.
+
+Theorem C20_ReachK1S_ReachS : forall cfg S0 s,
+  NoPanic.ReachK1S cfg S0 s -> SupplyMono.ReachS cfg S0 s.
+Proof. exact NoPanic.ReachK1S_ReachS. Qed.
+Print Assumptions C20_ReachK1S_ReachS.
+
+Theorem C20_ReachK1_ReachK1S : forall cfg s,
+  NoPanic.ReachK1 cfg s -> exists S0, NoPanic.ReachK1S cfg S0 s.
+Proof. exact NoPanic.ReachK1_ReachK1S. Qed.
+Print Assumptions C20_ReachK1_ReachK1S.
+
+(* both exclusions as conditions on the inputs *)
+Theorem C20_no_panic_reachK1S : forall cfg S0 s o,
+  wf_cfg cfg -> NoPanic.ReachK1S cfg S0 s -> wf_op s o -> NoPanic.k1_in cfg o ->
+  NoPanic.k6_in S0 o -> snd (step cfg s o) <> RPanic.
+Proof. exact NoPanic.C20_no_panic_reachK1S. Qed.
+Print Assumptions C20_no_panic_reachK1S.
+
+Theorem C20_ReachK1_run : forall cfg s ops,
+  NoPanic.ReachK1 cfg s -> NoPanic.k1_run cfg s ops -> NoPanic.ReachK1 cfg (run cfg s ops).
+Proof. exact NoPanic.ReachK1_run. Qed.
+Print Assumptions C20_ReachK1_run.
+
+Theorem C20_no_panic_run : forall cfg S0 s ops,
+  wf_cfg cfg -> NoPanic.ReachK1S cfg S0 s -> NoPanic.k16_run cfg S0 s ops ->
+  ~ In RPanic (NoPanic.outcomes cfg s ops) /\ NoPanic.ReachK1S cfg S0 (run cfg s ops).
 Proof. exact NoPanic.C20_no_panic_run. Qed.
 Print Assumptions C20_no_panic_run.
 
@@ -136,7 +241,7 @@ Proof. exact NoPanic.C20_handle_strict. Qed.
 Print Assumptions C20_handle_strict.
 
 Theorem C20_no_panic_strict : forall cfg s o,
-  wf_cfg cfg -> Reach cfg s -> wf_op s o -> NoPanic.k1_op cfg s o ->
+  wf_cfg cfg -> Reach cfg s -> wf_op s o -> NoPanic.k1_op cfg s o -> NoPanic.k6_op s o ->
   NoPanic.handle_strict cfg s o <> Panic.
 Proof. exact NoPanic.C20_no_panic_strict. Qed.
 Print Assumptions C20_no_panic_strict.
@@ -179,6 +284,59 @@ Theorem C20_K1_enable_witness :
   /\ snd (step K1Enable.k1_cfg K1Enable.k1_s (OEnable 1 7 CEmpty 42 true)) = RPanic.
 Proof. exact NoPanic.C20_K1_enable_witness. Qed.
 Print Assumptions C20_K1_enable_witness.
+
+(* ---- known finding K6: the exclusion is necessary ---- *)
+
+(* a message that reaches binding.Deposit.Add and violates k6_op panics *)
+Theorem C20_k6_update_sharp : forall cfg s svc prov dep pr qos owner b a,
+  get (svc, prov) (binds s) = Some b -> (b_owner b =? owner) = true ->
+  (qos =? 0) || (qos <=? p_max_timeout cfg) = true ->
+  one_base_coin dep = Ok a -> INT_LIMIT <= b_deposit b + a ->
+  h_update cfg s svc prov dep pr qos owner true = Panic.
+Proof. exact NoPanic.h_update_k6_sharp. Qed.
+Print Assumptions C20_k6_update_sharp.
+
+Theorem C20_k6_enable_sharp : forall cfg s svc prov dep owner b a,
+  get (svc, prov) (binds s) = Some b -> (b_owner b =? owner) = true -> b_avail b = false ->
+  one_base_coin dep = Ok a -> INT_LIMIT <= b_deposit b + a ->
+  h_enable cfg s svc prov dep owner true = Panic.
+Proof. exact NoPanic.h_enable_k6_sharp. Qed.
+Print Assumptions C20_k6_enable_sharp.
+
+Theorem C20_K6_update_refuted :
+  exists cfg s o, wf_cfg cfg /\ Reach cfg s /\ wf_op s o /\ NoPanic.k1_op cfg s o
+    /\ handle cfg s o = Panic.
+Proof. exact NoPanic.C20_K6_update_refuted. Qed.
+Print Assumptions C20_K6_update_refuted.
+
+(* k1u_s: one binding (1, 7) with deposit 5000 after Define, Bind; genesis supply 100000;
+   k6u_op = OUpdate 1 7 (CBase (2^255 - 1)) None 0 42 true *)
+Theorem C20_K6_update_witness :
+  wf_cfg K1Enable.k1_cfg /\ NoPanic.ReachK1S K1Enable.k1_cfg 100000 NoPanic.k1u_s
+  /\ wf_op NoPanic.k1u_s NoPanic.k6u_op
+  /\ NoPanic.k1_in K1Enable.k1_cfg NoPanic.k6u_op
+  /\ NoPanic.k1_op K1Enable.k1_cfg NoPanic.k1u_s NoPanic.k6u_op
+  /\ ~ NoPanic.k6_in 100000 NoPanic.k6u_op /\ ~ NoPanic.k6_op NoPanic.k1u_s NoPanic.k6u_op
+  /\ snd (step K1Enable.k1_cfg NoPanic.k1u_s NoPanic.k6u_op) = RPanic.
+Proof. exact NoPanic.C20_K6_update_witness. Qed.
+Print Assumptions C20_K6_update_witness.
+
+Theorem C20_K6_enable_refuted :
+  exists cfg s o, wf_cfg cfg /\ Reach cfg s /\ wf_op s o /\ NoPanic.k1_op cfg s o
+    /\ handle cfg s o = Panic.
+Proof. exact NoPanic.C20_K6_enable_refuted. Qed.
+Print Assumptions C20_K6_enable_refuted.
+
+(* k6e_s: the same binding after Disable; k6e_op = OEnable 1 7 (CBase (2^255 - 1)) 42 true *)
+Theorem C20_K6_enable_witness :
+  wf_cfg K1Enable.k1_cfg /\ NoPanic.ReachK1S K1Enable.k1_cfg 100000 NoPanic.k6e_s
+  /\ wf_op NoPanic.k6e_s NoPanic.k6e_op
+  /\ NoPanic.k1_in K1Enable.k1_cfg NoPanic.k6e_op
+  /\ NoPanic.k1_op K1Enable.k1_cfg NoPanic.k6e_s NoPanic.k6e_op
+  /\ ~ NoPanic.k6_in 100000 NoPanic.k6e_op /\ ~ NoPanic.k6_op NoPanic.k6e_s NoPanic.k6e_op
+  /\ snd (step K1Enable.k1_cfg NoPanic.k6e_s NoPanic.k6e_op) = RPanic.
+Proof. exact NoPanic.C20_K6_enable_witness. Qed.
+Print Assumptions C20_K6_enable_witness.
 
 (* ---- determinism, as far as Gallina can say it ---- *)
 
